@@ -31,6 +31,9 @@ def gen_cost(rng, dim, allow_vector=True):
         if dim >= 2:       # cross term dominated by the two squares: bounded below
             terms.append(("*", ("c", 0.5), ("*", ("x", 0), ("x", 1))))
     if allow_vector and rng.random() < 0.15 and len(terms) >= 2:
+        if rng.random() < 0.6:
+            # components that are negative near the optimum: 0 is not a neutral element of a max / selector reducer
+            terms = [("-", t, ("c", float(rng.choice([1.0, 2.5, 8.0])))) for t in terms]
         return ("vector", terms)
     return ("scalar", ("sum",) + tuple(terms))
 
